@@ -197,8 +197,11 @@ def parse_kani_log(path):
             if any("unsupported" in f["desc"].lower() or "not currently supported" in f["desc"].lower()
                    for f in h["failed"]):
                 h["unsupported"] = True
-        if "CBMC failed" in body or "Status: ERROR" in body or "std::bad_alloc" in body:
+        if ("CBMC failed" in body or "Status: ERROR" in body or "std::bad_alloc" in body) and not h["failed"]:
             h["status"] = "ERROR"
+        elif "Status: ERROR" in body and h["failed"]:
+            h["status"] = "FAILED"
+            h["partial_errors"] = body.count("Status: ERROR")
         out[name.split("::")[-1]] = h
     return out, meta, txt
 
@@ -392,6 +395,33 @@ def run_plan(ws, root, plan, idx, nslots, extra_args=None, tag="", batch=None):
         t.start()
     for t in threads:
         t.join()
+    # second chance: a harness that ran out of memory or time while 12 processes shared the
+    # machine is re-run alone with a larger memory cap before it is called inconclusive
+    if tag == "":
+        again = [h for h in plan if results.get(h["name"], {}).get("status") in ("ERROR", "TIMEOUT", "UNKNOWN")
+                 and not results.get(h["name"], {}).get("compile_error")]
+        for h in again[:8]:
+            log(f"  retry alone: {h['name']}")
+            h2 = dict(h)
+            h2["mem_gb"] = 44
+            h2["timeout"] = min(h.get("timeout", 900), 600)
+            r2 = run_plan(ws, root, [h2], idx, 1, extra_args=extra_args, tag="-retry", batch=1)
+            if r2.get(h["name"], {}).get("status") in ("SUCCESSFUL", "FAILED"):
+                results[h["name"]] = r2[h["name"]]
+            elif h.get("fallback"):
+                # the query at the registered bound is out of reach on this tree: a smaller bound
+                # can still return a (short) counterexample; a pass at the smaller bound leaves
+                # the registered bound undecided (inconclusive)
+                from registry import by_name
+                fb = by_name(h["fallback"])
+                if fb:
+                    log(f"  fallback bound: {fb['name']}")
+                    r3 = run_plan(ws, root, [fb], idx, 1, extra_args=extra_args, tag="-fallback", batch=1)
+                    rr = r3.get(fb["name"], {})
+                    if rr.get("status") == "FAILED":
+                        rr["via_fallback"] = fb["name"]
+                        results[h["name"]] = rr
+                        h["_fq_override"] = fb["name"]
     return results
 
 
@@ -574,12 +604,14 @@ def replay_parse(prop_oracle, decoder):
         for pb in pbs:
             for kinds in decoder(pb["vals"]):
                 ks = [names[k] if k < len(names) else "Error" for k in kinds]
-                t = realise.realise(ks)
-                if t not in texts:
-                    texts.append(t)
-                t2 = realise.realise(ks, sep="")
-                if t2 not in texts:
-                    texts.append(t2)
+                variants = realise.ERROR_VARIANTS if "Error" in ks else [None]
+                for ev in variants:
+                    for sep in (" ", "", "\n"):
+                        t = realise.realise(ks, sep=sep, error_lexeme=ev)
+                        if t not in texts:
+                            texts.append(t)
+                        if ("x " + t) not in texts:
+                            texts.append("x " + t)
         derived = len(texts)
         texts += [b for b in realise.BATTERY if b not in texts]
         binp = build_native(ws)
@@ -723,6 +755,7 @@ def enumerate_texts(alphabet, maxlen, prefix="", suffix="", limit=200000):
                 return
 
 
+LEX_ALPHABET = ["/", "*", "a", " ", "\n", "\"", "\\", "[", "{", "}", "]", "#", "!", "0", "x", "b", "$", "-", ".", "1"]
 PP_ALPHABET = ["#ifdef ", "#ifndef ", "#else\n", "#endif\n", "#define ", "M ", "; "]
 
 
@@ -764,6 +797,7 @@ def functions_in_log(path):
 REPLAYS = {
     "l1": replay_parse(oracle_c01c02, decode_l1),
     "pp_hang": replay_search(oracle_c02, PP_ALPHABET, 6),
+    "lex_hang": replay_search(oracle_c02, LEX_ALPHABET, 4),
     "l2": replay_l2,
 }
 
@@ -856,7 +890,7 @@ def check(prop, tier, only=None, seed=0):
         # ---- native replay of every candidate violation
         confirmed = []
         for h, r, fails in violations:
-            crate, fq = idx[h["name"]]
+            crate, fq = idx[h.get("_fq_override") or h["name"]]
             hfile = None
             for hf, mf, mn in INJECT[crate]:
                 if ("::" + mn + "::") in ("::" + fq):
